@@ -39,7 +39,35 @@ HOSTILE = [": colon", " #hash", "- dash", "*star", "&amp", "!bang", "|pipe", ">g
            "null", "true", "123", "1.5", "~", "ünï", " lead", "trail ", "a: b", "{{.InterfaceName}}Mock", "x\ty", "yes", "<<", "=", "0x1f", "multi\nline"]
 
 
+# v2 template variables inside values (some of them deprecated in v3: migrate warns, the value is carried as written), several per value
+V2VAR_SHAPES = ["{{.InterfaceName}}/mock_{{.InterfaceNameSnake}}_%s.go", "%s{{.InterfaceNameCamel}}{{.InterfaceNameLowerCamel}}", "{{.InterfaceNameLower}}-%s-{{.InterfaceNameLower}}-{{.InterfaceName}}",
+                "{{.PackageName}}_%s_{{.PackagePath}}{{.MockName}}", "{{.InterfaceNameSnake}}%s"]
 PATH_SHAPES = ["{{.InterfaceDir}}/../%s", "{{.InterfaceDir}}/%s/", "./{{.InterfaceDirRelative}}//%s", "%s/../x/./y", "./%s", "%s//sub/", "/abs/%s/..", "../%s"]
+
+
+_OTHER_FS = {}
+
+
+def other_fs_tmpdir(ctx, root):
+    """a writable directory on a file system other than the one holding `root` (None if the machine has none)"""
+    if "dir" not in _OTHER_FS:
+        _OTHER_FS["dir"] = None
+        try:
+            dev = os.stat(root).st_dev
+            for cand in ("/dev/shm", "/run/shm", "/run", "/var/tmp", "/tmp", os.path.expanduser("~")):
+                if os.path.isdir(cand) and os.access(cand, os.W_OK) and os.stat(cand).st_dev != dev:
+                    import tempfile, atexit, shutil
+                    d = tempfile.mkdtemp(prefix="vp.c19tmp.", dir=cand)
+                    atexit.register(shutil.rmtree, d, True)
+                    _OTHER_FS["dir"] = d
+                    break
+        except OSError:
+            pass
+    if _OTHER_FS["dir"]:
+        ctx.count("runs_with_tmpdir_on_another_file_system")
+    else:
+        ctx.count("no_other_file_system_available")
+    return _OTHER_FS["dir"]
 
 
 class Gen:
@@ -64,6 +92,8 @@ class Gen:
         if t == "bool":
             return r.random() < 0.5
         if t == "str":
+            if r.random() < 0.1:
+                return r.choice(V2VAR_SHAPES) % self.marker(key)
             if r.random() < 0.15:
                 # path-shaped values are carried as written: `..` segments after a template variable, trailing / doubled separators, a leading ./
                 return r.choice(PATH_SHAPES) % self.marker(key)
@@ -233,6 +263,19 @@ def gen_cases(ctx):
     for lvl in ("top", "pkg", "iface", "configs"):
         c = {k: "" for k in strkeys}
         t = {"dir": "inherited-dir", "mockname": "Inherited{{.InterfaceName}}", "packages": {"example.com/x/q": {"config": {"outpkg": "inheritedpkg"}, "interfaces": {"I": {"config": {}, "configs": [{}, {}]}}}}}
+        if lvl == "top":
+            t.update(c)
+        elif lvl == "pkg":
+            t["packages"]["example.com/x/q"]["config"] = c
+        elif lvl == "iface":
+            t["packages"]["example.com/x/q"]["interfaces"]["I"]["config"] = c
+        else:
+            t["packages"]["example.com/x/q"]["interfaces"]["I"]["configs"][1] = c
+        cases.append({"i": len(cases), "tree": t})
+    # values holding several v2 template variables, at every level (fixed witnesses)
+    for j, lvl in enumerate(("top", "pkg", "iface", "configs")):
+        c = {k: V2VAR_SHAPES[(j + n2) % len(V2VAR_SHAPES)] % ("v%d-%s" % (j, k)) for n2, k in enumerate(k for k in strkeys if k not in ("log-level", "config"))}
+        t = {"packages": {"example.com/x/q": {"config": {}, "interfaces": {"I": {"config": {}, "configs": [{}, {}]}}}}}
         if lvl == "top":
             t.update(c)
         elif lvl == "pkg":
@@ -451,13 +494,19 @@ def eval_case(ctx, case):
             f.write("all: true\ndir: stale-dir\nstructname: StaleName\npackages:\n" + "".join("  example.com/stale/p%d:\n    config:\n      all: true\n" % k for k in range(200)))
     before = core.snapshot(root)
     margs = ["migrate"] if search else ["migrate", "--config", v2path, "--outfile", out]
-    r = core.run_mockery(ctx, cwd, margs, timeout=120)
+    menv = None
+    if case["i"] % 3 == 0:
+        # the system temp directory lies on another file system than the project (tmpfs /tmp next to a project on disk, bind mounts in containers)
+        other = other_fs_tmpdir(ctx, root)
+        if other:
+            menv = {"TMPDIR": other}
+    r = core.run_mockery(ctx, cwd, margs, env_extra=menv, timeout=600, cpu_limit=60)
     if r.timed_out:
         return Verdict.inconclusive("watchdog")
     if search and case.get("twice") and r.exit == 0:
         # the project is migrated again later (the v3 file of the first run is now lying next to / above the v2 file)
         first = open(out, "rb").read() if os.path.exists(out) else None
-        r = core.run_mockery(ctx, cwd, margs, timeout=120)
+        r = core.run_mockery(ctx, cwd, margs, env_extra=menv, timeout=600, cpu_limit=60)
         if r.timed_out:
             return Verdict.inconclusive("watchdog")
         if r.exit != 0:
